@@ -328,8 +328,13 @@ pub fn stories(prop: &str) -> Vec<Scenario> {
 }
 
 /// Predicates of the known findings (ids must also be listed as open in known-findings.json).
-pub fn known(_prop: &str, _rule: &str, _sc: &Scenario, _detail: &str) -> Option<&'static str> {
-    // the two bottom-alignment findings (KF-BOTTOM-PRINT, KF-BOTTOM-REAP) were repaired; no open
-    // finding is left for the terminal-facing checks
+pub fn known(_prop: &str, rule: &str, _sc: &Scenario, detail: &str) -> Option<&'static str> {
+    // (the two bottom-alignment findings KF-BOTTOM-PRINT, KF-BOTTOM-REAP were repaired)
+    // KF-WIDE-WRAP: a layout violation in a history in which a line containing a double-width
+    // character wraps (the executor marks those histories); panics and deadlocks are never
+    // covered by it
+    if detail.contains("KF-WIDE-WRAP") && !(rule.ends_with(".no_panic") || rule.ends_with("deadlock")) {
+        return Some("KF-WIDE-WRAP");
+    }
     None
 }
